@@ -3,6 +3,7 @@
 -/
 import SeedProofs.Lemmas.Located
 import SeedProofs.Lemmas.Instances
+import SeedProofs.Lemmas.C18EvalPosProg
 namespace Seed.C17
 open Seed
 
@@ -104,5 +105,56 @@ theorem out_only_grows (n : Nat) (σ : State) (sc : List Addr) (ss : List Stmt) 
 /-- non-vacuity: a concrete located error with one call frame, and its rendering -/
 example : Located (.funcCall (some c!"f") (4, 1) (Err.at (2, 14) (Gen.Leaf.Undefined c!"x"))) := trivial
 example : frames (.funcCall (some c!"f") (4, 1) (Err.at (2, 14) (Gen.Leaf.Undefined c!"x"))) = 1 := rfl
+
+/-! ### the positions of a run-time diagnostic lie in the source (Lemmas/C18EvalPos*.lean; C18 `eval_uses_node_pos`) -/
+
+-- audit: Seed.evalPosAll Seed.evalProg_pos Seed.eval_uses_node_pos Seed.progMark_line_ge_one Seed.TokStart.line Seed.Err.allPos_iff
+
+/-- **`diag_line_ge_one`.**  a source that parses and fails at run time: every position in the error — the `line:col`
+    of every `atLoc` node, the call position of every call frame, at any depth, interpolation slots included — has
+    line ≥ 1 (a position in the leaf's payload has line ≥ 1 or is the `0:0` of the built-in `print`) -/
+theorem diag_line_ge_one {src : List Char} {stmts : List Stmt} {n : Nat} {e : Err} {σ : State}
+    (hp : parseProg src = .ok stmts) (h : evalProg n stmts = .err e σ) : e.AllPos (fun l => 1 ≤ l.1) :=
+  Seed.diag_line_ge_one hp h
+
+/-- full statement: the same with `1 ≤ l.1 ∧ l.1 ≤ 1 + src.count '\n'` for every program.  Proved for programs without
+    interpolation slots; missing: a bound on the lines of a slot's text by the lines of the source (positions inside a
+    slot are relative to the slot text, known findings K2/K4) -/
+theorem diag_line_in_source_partial {src : List Char} {stmts : List Stmt} {n : Nat} {e : Err} {σ : State}
+    (hp : parseProg src = .ok stmts) (hns : NoSlots stmts) (h : evalProg n stmts = .err e σ) :
+    e.AllPos (fun l => 1 ≤ l.1 ∧ l.1 ≤ 1 + src.count '\n') :=
+  Seed.diag_line_in_source_partial hp hns h
+
+/-- a located error has a first position, and the message starts with it -/
+theorem located_head_pos (path : List Char) (func : Option (List Char)) (e : Err) (h : Located e) :
+    ∃ (l : Loc) (f' : Option (List Char)) (rest : List Char), e.headPos = some l ∧
+      (renderErr path func e).1 = natToChars l.1 ++ c!":" ++ natToChars l.2 ++ c!":" ++ inFunc f' ++ c!" " ++ rest := by
+  induction e generalizing func with
+  | leaf l => exact absurd h (by simp [Located])
+  | atLoc line col e _ => exact ⟨(line, col), func, (renderErr path func e).1, rfl, by simp [renderErr]⟩
+  | builtinCall name loc e _ =>
+    exact ⟨loc, func, (renderErr path (some (name.getD c!"<unnamed function>")) e).1, rfl, by simp [renderErr]⟩
+  | funcCall name loc e ih =>
+    obtain ⟨l, f', rest, hl, hr⟩ := ih (some (name.getD c!"<unnamed function>")) h
+    exact ⟨l, f', rest, hl, by simp only [renderErr]; exact hr⟩
+
+/-- the diagnostic line of a failed run: `<path>:<l>:<c>:…` with `l ≥ 1` -/
+theorem stderr_line_ge_one (path : List Char) {src : List Char} {stmts : List Stmt} {n : Nat} {e : Err} {σ : State}
+    (hp : parseProg src = .ok stmts) (h : evalProg n stmts = .err e σ) :
+    ∃ (l c : Nat) (f' : Option (List Char)) (rest : List Char), 1 ≤ l ∧
+      (renderErr path none e).1 = natToChars l ++ c!":" ++ natToChars c ++ c!":" ++ inFunc f' ++ c!" " ++ rest := by
+  obtain ⟨l, f', rest, hl, hr⟩ := located_head_pos path none e (err_located n stmts e σ h)
+  exact ⟨l.1, l.2, f', rest, (Seed.diag_line_ge_one hp h).headPos hl, hr⟩
+
+/-- non-vacuity: a failure inside a called function (its body comes out of a heap cell); both positions are on lines
+    1 … 4 of the four-line source -/
+example : ∃ stmts e σ, parseProg c!"fn f(a) {\n    return a + x;\n}\nf(1);\n" = .ok stmts ∧ NoSlots stmts ∧
+    evalProg 40 stmts = .err e σ ∧ e.positions = [(4, 1), (2, 16)] := by
+  obtain ⟨e, σ, he, hp⟩ := errOf_map (n := 40) (stmts := progOf c!"fn f(a) {\n    return a + x;\n}\nf(1);\n")
+    (f := Err.positions) (x := [(4, 1), (2, 16)]) (by decide +kernel)
+  exact ⟨_, e, σ, parseProg_progOf (by decide +kernel), by decide +kernel, he, hp⟩
+
+example : (run 40 c!"p.sd" c!"fn f(a) {\n    return a + x;\n}\nf(1);\n").stderr =
+    c!"p.sd:2:16: in 'f': 'x' is not defined\nStacktrace:\n  p.sd:4:1: in '<root>'\n" := by decide +kernel
 
 end Seed.C17
